@@ -45,6 +45,11 @@ def rule_constructors(ctx):
         n += 1
         key = "%s|ctor" % name
         hs = [(bi, t) for bi, t in fn.calls(lambda t: callee(t) == HAG)]
+        if len(hs) != 1 and facts.body(M, HAG) is None:
+            # the predicate itself has been re-designed (another signature, folded into the constructors): which strings
+            # get the Ascii variant is then decided by code this rule has no model of
+            ctx.fail_closed("%s: has_ascii_graphemes no longer exists; the constructor decides the variant by other means, which this rule does not decide" % name)
+            continue
         if len(hs) != 1:
             ctx.violation(key + "|predicate", site(fn, 0), "constructor does not decide the variant with has_ascii_graphemes")
             continue
